@@ -61,5 +61,7 @@ except ImportError:
 
 if __name__ == "__main__":
     t = json.load(open(sys.argv[1]))
+    for extra in sys.argv[3:]:
+        t["scan"] = json.load(open(extra))
     ch = gen(t, sys.argv[2])
     print("regenerated:", " ".join(ch) if ch else "(unchanged)")
